@@ -402,6 +402,10 @@ def _red_dims(g, dimclass, rank, ax):
         return [-1, 0] if rank > 1 else [-1]
     if dimclass == "all":
         return list(range(rank))
+    if dimclass == "multi-neg-pair":      # two NEGATIVE axes: an implementation that reduces one axis at a time must not let
+        return [-2, -1] if rank > 1 else [-1]   # the first removal shift what the second index means
+    if dimclass == "multi-mixed":         # a non-negative and a negative axis naming different dims, highest index first
+        return [rank - 1, -rank] if rank > 1 else [-1]
     raise ValueError(dimclass)
 
 
@@ -415,7 +419,8 @@ def reduction(qn, dimtype, keepdim=True, dtype_kw=False, dom="any", mode="value"
     elif dimtype in ("int", "int_opt"):
         dimclasses = ["-rank", "last", "-1", "first"] + (["None"] if dimtype == "int_opt" else [])
     else:
-        dimclasses = ["-rank", "last", "-1", "first", "multi", "multi-neg-unsorted", "all", "[]"] + (["None"] if dimtype == "ints_opt" else [])
+        dimclasses = ["-rank", "last", "-1", "first", "multi", "multi-neg-unsorted", "multi-neg-pair", "multi-mixed", "all", "[]"] + \
+            (["None"] if dimtype == "ints_opt" else [])
 
     def mk(dt, dimclass, kd, shapeclass, dkw=None, omit_kd=False):
         def b(g):
@@ -1576,15 +1581,18 @@ def repeat_tile(qn, kind):
             shape = g.dims(rank, 2, 3)
             if v == "size0-self":
                 shape = [0, 2]
+            if v == "size0-self-more-dims":     # an empty input AND more repeats than dims: the prepended 1s shift every position
+                shape = g.r.choice([[0, 3], [2, 0]])
             reps = {"same-rank": [g.r.randint(1, 3) for _ in range(rank)], "more-dims": [2] + [g.r.randint(1, 2) for _ in range(rank)],
                     "fewer-dims": [2], "ones": [1] * rank, "zero-rep": [2, 0], "empty-reps": [], "0-d": [g.r.randint(1, 3)], "r1": [2, 3],
-                    "size0-self": [2, 2], "0-d-empty-reps": []}[v if v != "0-d-empty-reps" else v]
+                    "size0-self": [2, 2], "0-d-empty-reps": [], "size0-self-more-dims": [2, 1, 1]}[v if v != "0-d-empty-reps" else v]
             if v == "0-d-empty-reps":
                 shape = []
             return [g.t(shape, dt), reps], {}
         return b
 
-    vs = ["same-rank", "more-dims", "ones", "zero-rep", "0-d", "r1", "size0-self", "0-d-empty-reps"] + (["fewer-dims", "empty-reps"] if kind == "tile" else [])
+    vs = ["same-rank", "more-dims", "ones", "zero-rep", "0-d", "r1", "size0-self", "0-d-empty-reps", "size0-self-more-dims"] + \
+         (["fewer-dims", "empty-reps"] if kind == "tile" else [])
     for dt in dts:
         yield S(f"{vs[0]}/{dt}", mk(dt, vs[0]))
     for dt in lead(dts):
